@@ -421,6 +421,14 @@ theorem sg_direction_by_flag_only (t : Conn α) (c : SGCall α) :
     (c.serverToClient = true → (reassembledSG t c).client = t.client) := by
   constructor <;> intro h <;> simp [reassembledSG, h]
 
+/-- a reassembled datagram is recorded whatever it carries: the IP protocol and the fate of the upper-layer decode
+    only decide whether a TCP segment goes on to the assembler (the reference `defragGroup` does not see the
+    protocol at all) -/
+theorem reassembled_recorded_whatever_upper_layer (upperLayerDecodes isTcp : Bool) :
+    (onReassembled upperLayerDecodes isTcp).1 = true ∧
+    ((onReassembled upperLayerDecodes isTcp).2 = true ↔ upperLayerDecodes = true ∧ isTcp = true) := by
+  cases upperLayerDecodes <;> cases isTcp <;> simp [onReassembled]
+
 /-- every link type of the specification is served by the decoder that reads it, and SLL / SLL2 differ -/
 theorem link_table_ok :
     (["eth", "raw", "ipv4", "ipv6", "sll", "sll2", "null"].all fun l =>
